@@ -27,7 +27,8 @@ Judge(B) ==
       name  == IF tiled THEN "P:C06:tiling-independent" ELSE IF B.style = "lf" THEN "P:C06:style-independent" ELSE "P:C06:dense-result"
       mach  == Run(B.expr1, OpsFrom(B.ops1, names), B.order)
   IN IF B.exc # "ok" THEN <<"P:C06:no-exception">>
-     ELSE Fails(<< <<name, zun = denseR>>,
+     \* (the output is a TENSOR holding the dense result: a tree whose coordinates are out of order or repeated has no content to speak of)
+     ELSE Fails(<< <<name, zun = denseR /\ (B.z.rank0 = 1 \/ (NoForeign(B.z.t.root) /\ ParallelLists(B.z.t.root) /\ SortedUnique(B.z.t.root)))>>,
                    <<"P:C06:operands-unmodified", B.ops_unchanged = 1>>,
                    <<"S:machine-output", B.style = "tf" => zc = mach.z>>,
                    <<"S:machine-bodies", B.style = "tf" => \A k \in 1..Len(B.order) : B.bodies[k] = mach.it[k]>> >>)
